@@ -252,6 +252,212 @@ Proof.
   pose proof (max_len_ge n p h Hin). lia.
 Qed.
 
+(* ---------- precedence: fixed over parameter over wildcard, decided segment by segment ----------
+   For tables without optional parameters in which a node has at most one parameter name (the order in which the C++
+   visits several parameter children of one node is that of a hash map: unspecified).  The route found is the
+   matching route whose sequence of segment kinds is lexicographically least - and it is the only matching route with
+   that sequence. *)
+Definition rank (sg : seg) : nat := match sg with Fixed _ => 0 | Param _ => 1 | Opt _ => 2 | Splat => 3 end.
+Definition kinds (p : pattern) : list nat := map rank p.
+Fixpoint lex_le (a b : list nat) : Prop :=
+  match a, b with
+  | [], _ => True
+  | _ :: _, [] => False
+  | x :: a', y :: b' => x < y \/ (x = y /\ lex_le a' b')
+  end.
+
+Definition no_opt_pat (p : pattern) : Prop := Forall (fun sg => match sg with Opt _ => False | _ => True end) p.
+Definition no_opt (n : node) : Prop := forall p h, In (p, h) n -> no_opt_pat p.
+
+(* two patterns that run through the same node name a parameter there alike *)
+Fixpoint compat (p1 p2 : pattern) : Prop :=
+  match p1, p2 with
+  | Param a :: r1, Param b :: r2 => a = b /\ compat r1 r2
+  | Fixed a :: r1, Fixed b :: r2 => a = b -> compat r1 r2
+  | Splat :: r1, Splat :: r2 => compat r1 r2
+  | _, _ => True
+  end.
+Definition uniform (n : node) : Prop := forall p1 h1 p2 h2, In (p1, h1) n -> In (p2, h2) n -> compat p1 p2.
+
+Lemma no_opt_fixed v n : no_opt n -> no_opt (d_fixed v n).
+Proof. intros H p h Hin. apply in_d_fixed in Hin. specialize (H _ _ Hin). inversion H; assumption. Qed.
+Lemma no_opt_param nm n : no_opt n -> no_opt (d_param nm n).
+Proof. intros H p h Hin. apply in_d_param in Hin. specialize (H _ _ Hin). inversion H; assumption. Qed.
+Lemma no_opt_splat n : no_opt n -> no_opt (d_splat n).
+Proof. intros H p h Hin. apply in_d_splat in Hin. specialize (H _ _ Hin). inversion H; assumption. Qed.
+
+Lemma uniform_fixed v n : uniform n -> uniform (d_fixed v n).
+Proof.
+  intros H p1 h1 p2 h2 H1 H2. apply in_d_fixed in H1. apply in_d_fixed in H2.
+  specialize (H _ _ _ _ H1 H2). cbn [compat] in H. apply H. reflexivity.
+Qed.
+Lemma uniform_param nm n : uniform n -> uniform (d_param nm n).
+Proof.
+  intros H p1 h1 p2 h2 H1 H2. apply in_d_param in H1. apply in_d_param in H2.
+  specialize (H _ _ _ _ H1 H2). cbn [compat] in H. apply H.
+Qed.
+Lemma uniform_splat n : uniform n -> uniform (d_splat n).
+Proof.
+  intros H p1 h1 p2 h2 H1 H2. apply in_d_splat in H1. apply in_d_splat in H2.
+  specialize (H _ _ _ _ H1 H2). cbn [compat] in H. exact H.
+Qed.
+
+Lemma no_opt_names n : no_opt n -> opt_names n = [].
+Proof.
+  intros H. unfold opt_names.
+  assert (E : flat_map (fun e : pattern * N => match fst e with Opt t :: _ => [t] | _ => [] end) n = []).
+  { induction n as [|[p h] l IH]; [reflexivity|]. cbn [flat_map fst].
+    assert (Hp : no_opt_pat p) by (apply (H p h); left; reflexivity).
+    rewrite IH by (intros p' h' Hin; apply (H p' h'); right; exact Hin).
+    destruct p as [|[t|t|t|] q]; try reflexivity. inversion Hp; contradiction. }
+  rewrite E. reflexivity.
+Qed.
+
+Lemma max_len_le n m : (forall p h, In (p, h) n -> length p <= m) -> max_len n <= m.
+Proof.
+  unfold max_len. intros H.
+  assert (G : forall l k, k <= m -> (forall p h, In (p, h) l -> length p <= m) ->
+               fold_left (fun a (e : pattern * N) => Nat.max a (length (fst e))) l k <= m).
+  { induction l as [|[p h] l IH]; intros k Hk Hl; cbn [fold_left]; [exact Hk|].
+    apply IH; [cbn [fst]; pose proof (Hl p h (or_introl eq_refl)); lia|intros p' h' Hin; apply (Hl p' h'); right; exact Hin]. }
+  apply G; [lia|exact H].
+Qed.
+
+Lemma max_len_fixed v n : d_fixed v n <> [] -> S (max_len (d_fixed v n)) <= max_len n.
+Proof.
+  intros Hne. destruct (d_fixed v n) as [|[p0 h0] l] eqn:E; [congruence|]. rewrite <- E.
+  assert (H : forall p h, In (p, h) (d_fixed v n) -> S (length p) <= max_len n).
+  { intros p h Hin. apply in_d_fixed in Hin. apply max_len_ge in Hin. cbn in Hin. lia. }
+  assert (Hpos : 1 <= max_len n) by (specialize (H p0 h0); rewrite E in H; specialize (H (or_introl eq_refl)); lia).
+  assert (max_len (d_fixed v n) <= max_len n - 1); [|lia].
+  apply max_len_le. intros p h Hin. specialize (H p h Hin). lia.
+Qed.
+Lemma max_len_param nm n p0 h0 : In (p0, h0) (d_param nm n) -> S (max_len (d_param nm n)) <= max_len n.
+Proof.
+  intros H0.
+  assert (H : forall p h, In (p, h) (d_param nm n) -> S (length p) <= max_len n).
+  { intros p h Hin. apply in_d_param in Hin. apply max_len_ge in Hin. cbn in Hin. lia. }
+  assert (Hpos : 1 <= max_len n) by (specialize (H p0 h0 H0); lia).
+  assert (max_len (d_param nm n) <= max_len n - 1); [|lia].
+  apply max_len_le. intros p h Hin. specialize (H p h Hin). lia.
+Qed.
+Lemma max_len_splat n : d_splat n <> [] -> S (max_len (d_splat n)) <= max_len n.
+Proof.
+  intros Hne. destruct (d_splat n) as [|[p0 h0] l] eqn:E; [congruence|]. rewrite <- E.
+  assert (H : forall p h, In (p, h) (d_splat n) -> S (length p) <= max_len n).
+  { intros p h Hin. apply in_d_splat in Hin. apply max_len_ge in Hin. cbn in Hin. lia. }
+  assert (Hpos : 1 <= max_len n) by (specialize (H p0 h0); rewrite E in H; specialize (H (or_introl eq_refl)); lia).
+  assert (max_len (d_splat n) <= max_len n - 1); [|lia].
+  apply max_len_le. intros p h Hin. specialize (H p h Hin). lia.
+Qed.
+
+Theorem find_route_f_best : forall fuel path n ps ss h ps' ss',
+  no_opt n -> uniform n -> length path + max_len n < fuel ->
+  find_route_f fuel path n ps ss = Some (h, ps', ss') ->
+  exists p b s, In (p, h) n /\ matches p path b s /\ ps' = ps ++ b /\ ss' = ss ++ s /\
+    forall p' h' b' s', In (p', h') n -> matches p' path b' s' -> lex_le (kinds p) (kinds p').
+Proof.
+  induction fuel as [|f IH]; intros path n ps ss h ps' ss' Hno Hun Hfuel H; [discriminate|].
+  destruct path as [|v rest]; [rewrite find_route_f_nil in H|rewrite find_route_f_cons in H].
+  - rewrite (no_opt_names n Hno) in H. cbn [first_some] in H.
+    destruct (route_of n) as [h0|] eqn:E; [|discriminate].
+    inversion H; subst. exists [], [], []. rewrite !app_nil_r.
+    split; [apply route_of_in; exact E|]. split; [constructor|]. split; [reflexivity|]. split; [reflexivity|].
+    intros p' h' b' s' _ _. exact I.
+  - rewrite (no_opt_names n Hno) in H. cbn [first_some] in H.
+    destruct (match d_fixed v n with [] => None | _ :: _ => find_route_f f rest (d_fixed v n) ps ss end) as [r|] eqn:E1.
+    { (* the fixed child *)
+      injection H as Hr0; subst r.
+      destruct (d_fixed v n) as [|e0 l0] eqn:Ed; [discriminate|]. rewrite <- Ed in E1.
+      assert (Hml : S (max_len (d_fixed v n)) <= max_len n) by (apply max_len_fixed; rewrite Ed; discriminate).
+      destruct (IH rest (d_fixed v n) ps ss h ps' ss' (no_opt_fixed v n Hno) (uniform_fixed v n Hun)
+                  ltac:(cbn [length] in Hfuel; lia) E1) as [p [b [s [Hin [Hm [-> [-> Hbest]]]]]]].
+      exists (Fixed v :: p), b, s. split; [apply in_d_fixed; exact Hin|].
+      split; [apply M_fixed; [apply bytes_eqb_refl|exact Hm]|]. split; [reflexivity|]. split; [reflexivity|].
+      intros p' h' b' s' Hin' Hm'. inversion Hm' as [|t q v' path' b0 s0 Hv Hq|nm q v' path' b0 s0 Hq|nm q v' path' b0 s0 Hq|nm q path' b0 s0 Hq|q v' path' b0 s0 Hq]; subst; cbn [kinds map rank lex_le].
+      - right. split; [reflexivity|]. apply bytes_eqb_eq in Hv. subst t.
+        apply (Hbest q h' b' s'); [apply in_d_fixed; exact Hin'|exact Hq].
+      - left. lia.
+      - left. lia.
+      - exfalso. specialize (Hno _ _ Hin'). inversion Hno; contradiction.
+      - left. lia. }
+    destruct (first_some (fun name => find_route_f f rest (d_param name n) (ps ++ [(name, v)]) ss) (param_names n)) as [r|] eqn:E2.
+    { (* a parameter child; no fixed route matches *)
+      injection H as Hr0; subst r. apply first_some_in in E2. destruct E2 as [name [Hname Hr]].
+      destruct (param_names_in n name Hname) as [pw [hw Hw]].
+      assert (Hml : S (max_len (d_param name n)) <= max_len n)
+        by (apply (max_len_param name n pw hw); apply in_d_param; exact Hw).
+      destruct (IH rest (d_param name n) (ps ++ [(name, v)]) ss h ps' ss' (no_opt_param name n Hno) (uniform_param name n Hun)
+                  ltac:(cbn [length] in Hfuel; lia) Hr) as [p [b [s [Hin [Hm [-> [-> Hbest]]]]]]].
+      exists (Param name :: p), ((name, v) :: b), s. split; [apply in_d_param; exact Hin|].
+      split; [apply M_param; exact Hm|]. split; [rewrite <- app_assoc; reflexivity|]. split; [reflexivity|].
+      intros p' h' b' s' Hin' Hm'. inversion Hm' as [|t q v' path' b0 s0 Hv Hq|nm q v' path' b0 s0 Hq|nm q v' path' b0 s0 Hq|nm q path' b0 s0 Hq|q v' path' b0 s0 Hq]; subst; cbn [kinds map rank lex_le].
+      - (* a fixed route would have been found first *)
+        exfalso. apply bytes_eqb_eq in Hv. subst t.
+        assert (Hc : In (q, h') (d_fixed v n)) by (apply in_d_fixed; exact Hin').
+        destruct (d_fixed v n) as [|e0 l0] eqn:Ed; [contradiction|]. rewrite <- Ed in *.
+        revert E1. apply (find_route_f_complete q rest b' s' Hq f (d_fixed v n) h' ps ss Hc).
+        pose proof (max_len_ge _ _ _ Hin') as Hg. cbn [length] in Hg, Hfuel. lia.
+      - right. split; [reflexivity|].
+        assert (nm = name) by (pose proof (Hun _ _ _ _ Hin' (proj1 (in_d_param name n p h) Hin)) as Hc; cbn [compat] in Hc; apply Hc).
+        subst nm. apply (Hbest q h' b0 s'); [apply in_d_param; exact Hin'|exact Hq].
+      - exfalso. specialize (Hno _ _ Hin'). inversion Hno; contradiction.
+      - exfalso. specialize (Hno _ _ Hin'). inversion Hno; contradiction.
+      - left. lia. }
+    (* the wildcard child; neither a fixed nor a parameter route matches *)
+    destruct (d_splat n) as [|e0 l0] eqn:Ed; [discriminate|]. rewrite <- Ed in H.
+    assert (Hml : S (max_len (d_splat n)) <= max_len n) by (apply max_len_splat; rewrite Ed; discriminate).
+    destruct (IH rest (d_splat n) ps (ss ++ [v]) h ps' ss' (no_opt_splat n Hno) (uniform_splat n Hun)
+                ltac:(cbn [length] in Hfuel; lia) H) as [p [b [s [Hin [Hm [-> [-> Hbest]]]]]]].
+    exists (Splat :: p), b, (v :: s). split; [apply in_d_splat; exact Hin|].
+    split; [apply M_splat; exact Hm|]. split; [reflexivity|]. split; [rewrite <- app_assoc; reflexivity|].
+    intros p' h' b' s' Hin' Hm'. inversion Hm' as [|t q v' path' b0 s0 Hv Hq|nm q v' path' b0 s0 Hq|nm q v' path' b0 s0 Hq|nm q path' b0 s0 Hq|q v' path' b0 s0 Hq]; subst; cbn [kinds map rank lex_le].
+    + exfalso. apply bytes_eqb_eq in Hv. subst t.
+      assert (Hc : In (q, h') (d_fixed v n)) by (apply in_d_fixed; exact Hin').
+      destruct (d_fixed v n) as [|e1 l1] eqn:Ed1; [contradiction|]. rewrite <- Ed1 in *.
+      revert E1. apply (find_route_f_complete q rest b' s' Hq f (d_fixed v n) h' ps ss Hc).
+      pose proof (max_len_ge _ _ _ Hin') as Hg. cbn [length] in Hg, Hfuel. lia.
+    + exfalso. revert E2. apply (first_some_ex _ _ nm); [eapply param_names_complete; exact Hin'|].
+      apply (find_route_f_complete q rest b0 s' Hq f (d_param nm n) h'); [apply in_d_param; exact Hin'|].
+      pose proof (max_len_ge _ _ _ Hin') as Hg. cbn [length] in Hg, Hfuel. lia.
+    + exfalso. specialize (Hno _ _ Hin'). inversion Hno; contradiction.
+    + exfalso. specialize (Hno _ _ Hin'). inversion Hno; contradiction.
+    + right. split; [reflexivity|]. apply (Hbest q h' b' s0); [apply in_d_splat; exact Hin'|exact Hq].
+Qed.
+
+Theorem find_route_best path n h ps ss :
+  no_opt n -> uniform n -> find_route path n [] [] = Some (h, ps, ss) ->
+  exists p, In (p, h) n /\ matches p path ps ss /\
+    forall p' h' b' s', In (p', h') n -> matches p' path b' s' -> lex_le (kinds p) (kinds p').
+Proof.
+  intros Hno Hun H. unfold find_route in H.
+  destruct (find_route_f_best (S (length path + max_len n)) path n [] [] h ps ss Hno Hun ltac:(lia) H) as [p [b [s [Hin [Hm [-> [-> Hbest]]]]]]].
+  exists p. split; [exact Hin|]. split; [exact Hm|exact Hbest].
+Qed.
+
+(* two matching routes with the same kinds are the same route: the best one is unique *)
+Lemma same_kinds_same_pattern : forall p1 path b1 s1, matches p1 path b1 s1 ->
+  forall p2 b2 s2, matches p2 path b2 s2 -> no_opt_pat p1 -> no_opt_pat p2 -> compat p1 p2 ->
+  kinds p1 = kinds p2 -> p1 = p2.
+Proof.
+  induction 1 as [|t p v path b s Hv Hm IH|nm p v path b s Hm IH|nm p v path b s Hm IH|nm p path b s Hm IH|p v path b s Hm IH];
+    intros p2 b2 s2 Hm2 Hn1 Hn2 Hc Hk;
+    try (exfalso; inversion Hn1; contradiction).
+  - destruct p2 as [|x q]; [reflexivity|discriminate].
+  - inversion Hm2 as [|t' q v' path' b0 s0 Hv' Hq|nm' q v' path' b0 s0 Hq|nm' q v' path' b0 s0 Hq|nm' q path' b0 s0 Hq|q v' path' b0 s0 Hq];
+      subst; cbn [kinds map rank] in Hk; try discriminate.
+    apply bytes_eqb_eq in Hv. apply bytes_eqb_eq in Hv'. subst. f_equal.
+    inversion Hn1; inversion Hn2; subst. cbn [compat] in Hc. injection Hk as Hk.
+    eapply IH; eauto.
+  - inversion Hm2 as [|t' q v' path' b0 s0 Hv' Hq|nm' q v' path' b0 s0 Hq|nm' q v' path' b0 s0 Hq|nm' q path' b0 s0 Hq|q v' path' b0 s0 Hq];
+      subst; cbn [kinds map rank] in Hk; try discriminate.
+    cbn [compat] in Hc. destruct Hc as [-> Hc]. f_equal.
+    inversion Hn1; inversion Hn2; subst. injection Hk as Hk. eapply IH; eauto.
+  - inversion Hm2 as [|t' q v' path' b0 s0 Hv' Hq|nm' q v' path' b0 s0 Hq|nm' q v' path' b0 s0 Hq|nm' q path' b0 s0 Hq|q v' path' b0 s0 Hq];
+      subst; cbn [kinds map rank] in Hk; try discriminate.
+    f_equal. inversion Hn1; inversion Hn2; subst. cbn [compat] in Hc. injection Hk as Hk. eapply IH; eauto.
+Qed.
+
 (* ---------- sanitising ---------- *)
 Lemma collapse_no_double : forall s a b r, collapse s = a :: b :: r ->
   ~ (ascii_eqb a slash = true /\ ascii_eqb b slash = true) \/ True.
